@@ -747,12 +747,18 @@ package lua
 //@ define vaCount(L *LState) int = max(L.currentFrame.NArgs - L.currentFrame.Fn.Proto.NumParameters, 0)
 //@ define vaWant(L *LState, inst uint32) int = ite(opB(inst) == 0, vaCount(L), opB(inst) - 1)
 //@ func jumpTable[OP_VARARG] [C01 C02 C07]
-//@ requires Frame(L) && opA(inst) < nreg(L) && 0 <= L.currentFrame.Base && vaStart(L) >= 0 && lb(L) <= top(L)
+//@ requires Frame(L) && opA(inst) < nreg(L) && 0 <= L.currentFrame.Base && vaStart(L) >= 0 && lb(L) <= top(L) && (opB(inst) != 0 ==> opA(inst) + opB(inst) - 1 <= nreg(L))
 //@ raises when overflow(L.reg, lb(L) + opA(inst) + vaWant(L, inst))
-//@ ensures  result == 0 && top(L) == lb(L) + opA(inst) + old(vaWant(L, inst)) && L.currentFrame == old(L.currentFrame) && pc(L) == old(pc(L))
+//@ ensures  result == 0 && L.currentFrame == old(L.currentFrame) && pc(L) == old(pc(L))
 //@ ensures  "varargs-in-order-then-nil": forall k int :: 0 <= k && k < old(vaWant(L, inst)) ==> R(L, opA(inst) + k) == ite(old(vaStart(L)) + k < lb(L), old(L.reg.array[vaStart(L) + k]), LNil)
+//@ ensures  "open-form-sets-top": opB(inst) == 0 ==> top(L) == lb(L) + opA(inst) + old(vaWant(L, inst))
+// the fixed form writes exactly its B-1 target registers: registers above them (other live locals) are untouched
+//@ ensures  "fixed-form-touches-only-its-targets": opB(inst) != 0 ==> top(L) == old(ite(vaWant(L, inst) == 0, top(L), max(top(L), lb(L) + opA(inst) + vaWant(L, inst)))) && (forall k int :: lb(L) + opA(inst) + old(vaWant(L, inst)) <= k && k < old(top(L)) ==> L.reg.array[k] == old(L.reg.array[k]))
 //@ ensures  forall k int :: 0 <= k && k < lb(L) + opA(inst) && k < old(top(L)) ==> L.reg.array[k] == old(L.reg.array[k])
 //@ modifies L.reg.array, L.reg.top, L.reg.array[*]
+//@ loop 3 invariant 0 <= i && L.reg == old(L.reg) && reg == L.reg && Inv_reg(reg) && L.currentFrame == old(L.currentFrame) && cf == L.currentFrame && cf.LocalBase == old(lb(L)) && cf.Pc == old(pc(L)) && start == old(vaStart(L)) && B == opB(inst) && B != 0 && nwant == B - 1 && RA == old(lb(L)) + opA(inst) && reg.top == ite(i == 0, old(top(L)), max(old(top(L)), RA + i)) && arrSameOrFresh(reg) && cap(reg.array) >= old(cap(L.reg.array))
+//@ loop 3 invariant forall k int :: RA <= k && k < RA + i ==> reg.array[k] == ite(start + k - RA < cf.LocalBase, old(L.reg.array[vaStart(L) + k - (lb(L) + opA(inst))]), LNil)
+//@ loop 3 invariant forall k int :: 0 <= k && k < old(top(L)) && !(RA <= k && k < RA + i) ==> reg.array[k] == old(L.reg.array[k])
 
 // OP_NEWTABLE A B C: R(A) := a new empty table (B, C are size hints only)
 //@ func jumpTable[OP_NEWTABLE] [C01 C07]
